@@ -112,12 +112,12 @@ impl AsyncWrite for MockW {
     fn poll_close(self: Pin<&mut Self>, _cx: &mut Context<'_>) -> Poll<io::Result<()>> { Poll::Ready(Ok(())) }
 }
 
-fn noop_cx() -> Context<'static> { Context::from_waker(futures_util::task::noop_waker_ref()) }
+pub(crate) fn noop_cx() -> Context<'static> { Context::from_waker(futures_util::task::noop_waker_ref()) }
 
 /// A GetValues management record (id 0) with the 3-byte body [1, 0, name] and 5 padding bytes: 16 bytes.
-fn getvalues_record(name: u8) -> [u8; 16] { [1, 9, 0, 0, 0, 3, 5, 0, 1, 0, name, 0, 0, 0, 0, 0] }
+pub(crate) fn getvalues_record(name: u8) -> [u8; 16] { [1, 9, 0, 0, 0, 3, 5, 0, 1, 0, name, 0, 0, 0, 0, 0] }
 
-fn mk_request<'a>(cfg: &'a Config, raw: [u8; sv::B], raw_len: usize, role: fcgi::Role, id: u16, stream: Option<fcgi::RecordType>,
+pub(crate) fn mk_request<'a>(cfg: &'a Config, raw: [u8; sv::B], raw_len: usize, role: fcgi::Role, id: u16, stream: Option<fcgi::RecordType>,
                   st: u8, payload: u16, padding: u8, r: MockR, w: MockW, writeable: bool) -> Request<'a, MockR, MockW> {
     let parser = sv::mk_code(cfg, raw, (0, 0, 0, raw_len), st, role, id, stream, payload, padding, Vec::with_capacity(32), 0);
     Request { parser, input: r, output: Arc::new(Mutex::new(w)), lock: None, writeable }
@@ -126,9 +126,9 @@ fn mk_request<'a>(cfg: &'a Config, raw: [u8; sv::B], raw_len: usize, role: fcgi:
 // ------------------------------------------------------------------------------------------------ C08: poll_input
 
 /// Reply-owing record used by the C08 harnesses: an (empty) record of unknown type `ty` for request id `id`.
-fn unknown_record(ty: u8, id: u16) -> [u8; 8] { [1, ty, (id >> 8) as u8, id as u8, 0, 0, 0, 0] }
+pub(crate) fn unknown_record(ty: u8, id: u16) -> [u8; 8] { [1, ty, (id >> 8) as u8, id as u8, 0, 0, 0, 0] }
 
-fn owes_reply_case(raw: [u8; sv::B], raw_len: usize, reply_len: usize) {
+pub(crate) fn owes_reply_case(raw: [u8; sv::B], raw_len: usize, reply_len: usize) {
     let cfg = sv::cfg1();
     let r = MockR::new([0; RN], 0, 1);
     let w = MockW::new(1, 2);
@@ -164,7 +164,7 @@ fn owes_reply_case(raw: [u8; sv::B], raw_len: usize, reply_len: usize) {
 #[kani::stub(std::hash::RandomState::new, fixed_random_state)]
 #[kani::stub(fcgi::ProtocolVariables::parse_name, crate::verif_kani::parse_name_model)]
 #[kani::stub(fcgi::ProtocolVariables::write_response, crate::verif_kani::write_response_model)]
-fn c08_poll_input_owes_reply() {
+pub(crate) fn c08_poll_input_owes_reply() {
     let mut raw = [0u8; sv::B];
     // the type byte is concrete (symex does not prune on assumptions: a symbolic type makes CBMC explore every
     // header arm incl. GetValues bodies); the request id is symbolic
@@ -181,7 +181,7 @@ fn c08_poll_input_owes_reply() {
 #[kani::stub(std::hash::RandomState::new, fixed_random_state)]
 #[kani::stub(fcgi::ProtocolVariables::parse_name, crate::verif_kani::parse_name_model)]
 #[kani::stub(fcgi::ProtocolVariables::write_response, crate::verif_kani::write_response_model)]
-fn c08_poll_input_owes_getvalues() {
+pub(crate) fn c08_poll_input_owes_getvalues() {
     let mut raw = [0u8; sv::B];
     let rec = getvalues_record(kani::any());
     let mut i = 0; while i < 16 { raw[i] = rec[i]; i += 1; }
@@ -236,9 +236,9 @@ impl AsyncWrite for ExpectW {
     fn poll_close(self: Pin<&mut Self>, _cx: &mut Context<'_>) -> Poll<io::Result<()>> { Poll::Ready(Ok(())) }
 }
 
-fn writer_case<const N: usize>() { writer_case_f::<N>(false) }
+pub(crate) fn writer_case<const N: usize>() { writer_case_f::<N>(false) }
 
-fn writer_case_f<const N: usize>(wfault: bool) {
+pub(crate) fn writer_case_f<const N: usize>(wfault: bool) {
     unsafe { GW_FAILED = false; GW_AFTER_FAIL = 0; }
     // write-side fault injection (C12): one of the first three write calls fails with an error or a zero-length write
     let fail_at: usize = if wfault { let x: usize = kani::any(); kani::assume(1 <= x && x <= 3); x } else { 0 };
@@ -317,7 +317,7 @@ writer_harness!(c10_writer_3, 3);
 // @functions StreamWriter::poll_write (error / WriteZero paths)
 #[kani::proof]
 #[kani::unwind(10)]
-fn c12_writer_fault_3() { writer_case_f::<3>(true); }
+pub(crate) fn c12_writer_fault_3() { writer_case_f::<3>(true); }
 
 // @harness name=c10_writer_8 props=C10 tier=quick timeout=2400 rmbody=ioerr,nogrow,nowaiters mem=20 unwindset=StreamWriter<.*>.as.futures_util::AsyncWrite>::poll_write$:6;drop_glue::<.slab::Entry<.*>.>$:2 dead=2
 // @bound as c10_writer_3 with a payload of 8 symbolic bytes (no padding)
@@ -332,7 +332,7 @@ writer_harness!(c10_writer_9, 9);
 // ------------------------------------------------------------------------------------------------ C09 / C12: async reads
 
 /// Stdin record with 3 payload bytes and 5 padding bytes (16 bytes), then the empty Stdin terminator (8 bytes).
-fn stdin_trace(id: u16, pl: [u8; 3]) -> [u8; sv::B] {
+pub(crate) fn stdin_trace(id: u16, pl: [u8; 3]) -> [u8; sv::B] {
     let (h, l) = ((id >> 8) as u8, id as u8);
     [1, 5, h, l, 0, 3, 5, 0, pl[0], pl[1], pl[2], 0, 0, 0, 0, 0, 1, 5, h, l, 0, 0, 0, 0]
 }
@@ -345,7 +345,7 @@ fn stdin_trace(id: u16, pl: [u8; 3]) -> [u8; sv::B] {
 #[kani::stub(std::hash::RandomState::new, fixed_random_state)]
 #[kani::stub(fcgi::ProtocolVariables::parse_name, crate::verif_kani::parse_name_model)]
 #[kani::stub(fcgi::ProtocolVariables::write_response, crate::verif_kani::write_response_model)]
-fn c09_read_buffered_trace() {
+pub(crate) fn c09_read_buffered_trace() {
     let cfg = sv::cfg1();
     let pl: [u8; 3] = kani::any();
     let raw = stdin_trace(1, pl);
@@ -381,7 +381,7 @@ fn c09_read_buffered_trace() {
 #[kani::stub(std::hash::RandomState::new, fixed_random_state)]
 #[kani::stub(fcgi::ProtocolVariables::parse_name, crate::verif_kani::parse_name_model)]
 #[kani::stub(fcgi::ProtocolVariables::write_response, crate::verif_kani::write_response_model)]
-fn c12_read_eof_midstream() {
+pub(crate) fn c12_read_eof_midstream() {
     let cfg = sv::cfg1();
     let pl: [u8; 3] = kani::any();
     let raw = stdin_trace(1, pl);
@@ -424,7 +424,7 @@ fn c12_read_eof_midstream() {
 #[kani::proof]
 #[kani::unwind(6)]
 #[kani::stub(event_listener::notify::full_fence, crate::verif_kani::full_fence_noop)]
-fn c13_tokens_limit1() {
+pub(crate) fn c13_tokens_limit1() {
     let cfg = Config { buffer_size: 24, max_conns: std::num::NonZeroUsize::new(1).unwrap() };
     let runner = cfg.async_runner();
     let clone = runner.clone();
@@ -455,42 +455,11 @@ fn c13_tokens_limit1() {
 
 // ------------------------------------------------------------------------------------------------ C08: parse_request / record_boundary
 
-fn poll_once<F: Future>(f: Pin<&mut F>) -> Poll<F::Output> { let mut cx = noop_cx(); f.poll(&mut cx) }
-
-// @harness name=c08_parse_request_buffered props=C08,C07 tier=manual timeout=1800 rmbody=ioerr,nogrow,nonv,noparams mem=20 unwindset=request::State::drive$:3
-// @bound a request parser that was handed 8 already-buffered bytes = ONE complete record of unknown type 12 (symbolic id) by the previous request (into_request_parser); the peer sends nothing more until it sees the reply: reader Pending; writer accepts everything. One poll of Token::parse_request.
-// @functions Token::parse_request, request::Parser::{parse,input_buffer}
-#[kani::proof]
-#[kani::unwind(18)]
-#[kani::stub(std::hash::RandomState::new, fixed_random_state)]
-#[kani::stub(fcgi::ProtocolVariables::parse_name, crate::verif_kani::parse_name_model)]
-#[kani::stub(fcgi::ProtocolVariables::write_response, crate::verif_kani::write_response_model)]
-fn c08_parse_request_buffered() {
-    let cfg = sv::cfg1();
-    let mut buf = [0u8; sv::B];
-    let rec = unknown_record(12, kani::any());
-    let mut i = 0; while i < 8 { buf[i] = rec[i]; i += 1; }
-    let parser = crate::parser::request::verif_kani::mk_header_parser(&cfg, buf, 8);
-    let mut r = MockR::new([0; RN], 0, 1);
-    let mut w = MockW::new(0, 0);
-    {
-        // never dropped (the drop glue of the suspended state machine is irrelevant and expensive)
-        let mut fut = std::mem::ManuallyDrop::new(Token::parse_request(parser, &mut r, &mut w));
-        let pinned = unsafe { Pin::new_unchecked(&mut *fut) };
-        match poll_once(pinned) {
-            Poll::Pending => {}
-            Poll::Ready(res) => { std::mem::forget(res); kani::cover!(true, "reader reported EOF"); return; }
-        }
-    }
-    // the task is now suspended waiting for the client, which in turn waits for the reply to its record
-    assert!(r.last_pending);
-    assert!(w.len == 16, "C08:buffered-record-unprocessed-at-read-pending: parse_request waits for client input although a complete record handed over by the previous request has not been processed/answered");
-    kani::cover!(true, "suspended on the reader");
-}
+pub(crate) fn poll_once<F: Future>(f: Pin<&mut F>) -> Poll<F::Output> { let mut cx = noop_cx(); f.poll(&mut cx) }
 
 // ------------------------------------------------------------------------------------------------ C07 / C11: Request::close
 
-fn close_case(keep_conn: bool, pending_out: usize, raw_extra: usize) {
+pub(crate) fn close_case(keep_conn: bool, pending_out: usize, raw_extra: usize) {
     let cfg = sv::cfg1();
     let id: u16 = kani::any();
     kani::assume(id != 0);
@@ -540,7 +509,7 @@ fn close_case(keep_conn: bool, pending_out: usize, raw_extra: usize) {
     }
 }
 
-fn close_light_case(keep_conn: bool, pending_out: usize, raw_extra: usize, w_pend: usize, w_partial: usize) {
+pub(crate) fn close_light_case(keep_conn: bool, pending_out: usize, raw_extra: usize, w_pend: usize, w_partial: usize) {
     let cfg = sv::cfg1();
     let mut raw = [0u8; sv::B];
     let extra: [u8; 4] = kani::any();
@@ -587,7 +556,7 @@ fn close_light_case(keep_conn: bool, pending_out: usize, raw_extra: usize, w_pen
 #[kani::stub(std::hash::RandomState::new, fixed_random_state)]
 #[kani::stub(alloc::fmt::format, crate::verif_kani::fmt_format_stub)]
 #[kani::stub(fcgi::body::make_request_epilogue, crate::protocol::body::verif_kani::epilogue_model)]
-fn c07_close_order_keep() { close_light_case(true, 2, 3, 0, 0); }
+pub(crate) fn c07_close_order_keep() { close_light_case(true, 2, 3, 0, 0); }
 
 // @harness name=c07_close_order_nokeep props=C07 tier=quick timeout=2400 rmbody=ioerr,nogrow,nonv,nowaiters,nodropreq,nopollinput,noparse mem=30 unwindset=WriteAll<.*>.as.futures_util::Future>::poll$:4;drop_glue::<.slab::Entry<.*>.>$:2 dead=2
 // @bound as c07_close_order_keep without KeepConn and without look-ahead: the epilogue is written, then the connection ends with ConnectionReset
@@ -597,7 +566,7 @@ fn c07_close_order_keep() { close_light_case(true, 2, 3, 0, 0); }
 #[kani::stub(std::hash::RandomState::new, fixed_random_state)]
 #[kani::stub(alloc::fmt::format, crate::verif_kani::fmt_format_stub)]
 #[kani::stub(fcgi::body::make_request_epilogue, crate::protocol::body::verif_kani::epilogue_model)]
-fn c07_close_order_nokeep() { close_light_case(false, 2, 0, 0, 0); }
+pub(crate) fn c07_close_order_nokeep() { close_light_case(false, 2, 0, 0, 0); }
 
 // @harness name=c07_close_order_keep_pending props=C07,C11 tier=manual timeout=6000 rmbody=ioerr,nogrow,nonv,nowaiters,nodropreq,nopollinput,noparse mem=40 est=25 unwindset=WriteAll<.*>.as.futures_util::Future>::poll$:4;drop_glue::<.slab::Entry<.*>.>$:2 dead=1
 // @bound as c07_close_order_keep, but the transport may return Pending once and accept one write only partly (close() polled up to twice)
@@ -607,7 +576,7 @@ fn c07_close_order_nokeep() { close_light_case(false, 2, 0, 0, 0); }
 #[kani::stub(std::hash::RandomState::new, fixed_random_state)]
 #[kani::stub(alloc::fmt::format, crate::verif_kani::fmt_format_stub)]
 #[kani::stub(fcgi::body::make_request_epilogue, crate::protocol::body::verif_kani::epilogue_model)]
-fn c07_close_order_keep_pending() { close_light_case(true, 2, 3, 1, 1); }
+pub(crate) fn c07_close_order_keep_pending() { close_light_case(true, 2, 3, 1, 1); }
 
 // @harness name=c07_close_keep_writeable props=C07,C11 tier=manual timeout=7000 rmbody=ioerr,nogrow,nonv,nowaiters,nodropreq,nopollinput,noparse mem=20 unwindset=verif_kani::close_case$:34;WriteAll<.*>.as.futures_util::Future>::poll$:4;drop_glue::<.slab::Entry<.*>.>$:2
 // @bound Request::close at a record boundary with all input consumed (writeable), KeepConn set, 2 bytes of pending management replies, 3 bytes of look-ahead for the next request; every ExitStatus (all u32 app statuses) and request id; the transport checks every write against the expected byte sequence and accepts any split (<= 2 short writes) and <= 1 Pending
@@ -617,7 +586,7 @@ fn c07_close_order_keep_pending() { close_light_case(true, 2, 3, 1, 1); }
 #[kani::stub(std::hash::RandomState::new, fixed_random_state)]
 #[kani::stub(stream::Parser::parse, sv::parse_contract)]
 #[kani::stub(alloc::fmt::format, crate::verif_kani::fmt_format_stub)]
-fn c07_close_keep_writeable() { close_case(true, 2, 3); }
+pub(crate) fn c07_close_keep_writeable() { close_case(true, 2, 3); }
 
 // @harness name=c07_close_nokeep props=C07 tier=manual timeout=7000 rmbody=ioerr,nogrow,nonv,nowaiters,nodropreq,nopollinput,noparse mem=20 unwindset=verif_kani::close_case$:34;WriteAll<.*>.as.futures_util::Future>::poll$:4;drop_glue::<.slab::Entry<.*>.>$:2
 // @bound as above without KeepConn, no pending replies, no look-ahead
@@ -627,7 +596,7 @@ fn c07_close_keep_writeable() { close_case(true, 2, 3); }
 #[kani::stub(std::hash::RandomState::new, fixed_random_state)]
 #[kani::stub(stream::Parser::parse, sv::parse_contract)]
 #[kani::stub(alloc::fmt::format, crate::verif_kani::fmt_format_stub)]
-fn c07_close_nokeep() { close_case(false, 0, 0); }
+pub(crate) fn c07_close_nokeep() { close_case(false, 0, 0); }
 
 // ------------------------------------------------------------------------------------------------ async glue against the parser CONTRACT (C08, C09, C12)
 // stream::Parser::parse is replaced by sv::parse_contract (any consumption, any replies, any delivery, errors);
@@ -725,9 +694,9 @@ impl AsyncWrite for OrderW {
 }
 
 /// the counting writer has already accepted one byte (mid-reply start state)
-fn guard_len_set(g: &futures_util::lock::OwnedMutexGuard<CountW>) { let p: *const CountW = &**g; unsafe { (*(p as *mut CountW)).len = 1; } }
+pub(crate) fn guard_len_set(g: &futures_util::lock::OwnedMutexGuard<CountW>) { let p: *const CountW = &**g; unsafe { (*(p as *mut CountW)).len = 1; } }
 
-fn glue_request<'a>(cfg: &'a Config, r: CountR, w: CountW, role: fcgi::Role, stream: Option<fcgi::RecordType>, writeable: bool,
+pub(crate) fn glue_request<'a>(cfg: &'a Config, r: CountR, w: CountW, role: fcgi::Role, stream: Option<fcgi::RecordType>, writeable: bool,
                     buffered: usize, pending_out: usize) -> Request<'a, CountR, CountW> {
     let mut raw = [0u8; sv::B];
     let mut i = 0;
@@ -740,7 +709,7 @@ fn glue_request<'a>(cfg: &'a Config, r: CountR, w: CountW, role: fcgi::Role, str
     Request { parser, input: r, output: Arc::new(Mutex::new(w)), lock: None, writeable }
 }
 
-fn glue_poll_read_case(buffered_max: usize, pend_sym: bool, d_fixed: Option<usize>, mid_reply: bool, wfault: bool, filter: bool) {
+pub(crate) fn glue_poll_read_case(buffered_max: usize, pend_sym: bool, d_fixed: Option<usize>, mid_reply: bool, wfault: bool, filter: bool) {
     let cfg = sv::cfg1();
     let gs: [u8; 8] = kani::any();
     unsafe { sv::GS_STREAM = gs; sv::GS_ERR_BUDGET = 1; }
@@ -851,7 +820,7 @@ fn glue_poll_read_case(buffered_max: usize, pend_sym: bool, d_fixed: Option<usiz
 #[kani::stub(std::hash::RandomState::new, fixed_random_state)]
 #[kani::stub(stream::Parser::parse, sv::parse_contract)]
 #[kani::stub(stream::Parser::compress, sv::compress_contract)]
-fn c09_glue_poll_read_min() { glue_poll_read_case(0, false, Some(4), false, false, false); }
+pub(crate) fn c09_glue_poll_read_min() { glue_poll_read_case(0, false, Some(4), false, false, false); }
 
 // @harness name=c09_glue_poll_read_pending props=C09,C08,C12 tier=thorough timeout=2400 rmbody=ioerr,nogrow,nowaiters mem=20 unwindset=Request::<'_,.*>::poll_input$:5;Request::<'_,.*>::poll_output$:4;drop_glue::<.slab::Entry<.*>.>$:2 dead=5
 // @bound ONE poll of Request::poll_read against the parser contract: nothing buffered, 0 or 2 reply bytes pending, caller buffer 0..4; reader: <= 2 reads of symbolic size, <= 1 Pending, then EOF or error; writer: any split (<= 1 short write), <= 1 Pending; parser contract: any consumption / replies / delivery (<= 3 bytes per call) / end of stream / <= 1 error. Sequences of polls follow by induction over the symbolic state
@@ -861,7 +830,7 @@ fn c09_glue_poll_read_min() { glue_poll_read_case(0, false, Some(4), false, fals
 #[kani::stub(std::hash::RandomState::new, fixed_random_state)]
 #[kani::stub(stream::Parser::parse, sv::parse_contract)]
 #[kani::stub(stream::Parser::compress, sv::compress_contract)]
-fn c09_glue_poll_read_pending() { glue_poll_read_case(0, true, None, false, false, false); }
+pub(crate) fn c09_glue_poll_read_pending() { glue_poll_read_case(0, true, None, false, false, false); }
 
 // @harness name=c09_glue_poll_read_buffered props=C09,C08,C12 tier=quick timeout=2400 rmbody=ioerr,nogrow,nowaiters mem=20 unwindset=Request::<'_,.*>::poll_input$:5;Request::<'_,.*>::poll_output$:4;drop_glue::<.slab::Entry<.*>.>$:2 dead=4
 // @bound ONE poll of Request::poll_read against the parser contract: 0..2 stream bytes buffered, 0 or 2 reply bytes pending, caller buffer 0..4; reader: <= 2 reads of symbolic size, <= 1 Pending, then EOF or error; writer: any split (<= 1 short write), <= 1 Pending; parser contract: any consumption / replies / delivery (<= 3 bytes per call) / end of stream / <= 1 error. Sequences of polls follow by induction over the symbolic state
@@ -871,67 +840,7 @@ fn c09_glue_poll_read_pending() { glue_poll_read_case(0, true, None, false, fals
 #[kani::stub(std::hash::RandomState::new, fixed_random_state)]
 #[kani::stub(stream::Parser::parse, sv::parse_contract)]
 #[kani::stub(stream::Parser::compress, sv::compress_contract)]
-fn c09_glue_poll_read_buffered() { glue_poll_read_case(2, true, None, false, false, false); }
-
-// @harness name=c08_glue_parse_request props=C08,C07,C12 tier=quick timeout=2400 rmbody=ioerr,nogrow,nodropreq mem=30 unwindset=Token::parse_request::<.*>::.closure.0.$:4;WriteAll<.*>.as.futures_util::Future>::poll$:3
-// @bound Token::parse_request against the request parser's contract (any consumption, 0|2 reply bytes per call, done or not): 0..24 bytes handed over by the previous request; reader: 1 byte then EOF/error, <= 1 Pending; writer: <= 1 short write, <= 1 Pending; polled up to 3 times
-// @functions Token::parse_request, AsyncReadExt::read, AsyncWriteExt::write_all, request::Parser::input_buffer
-#[kani::proof]
-#[kani::unwind(10)]
-#[kani::stub(std::hash::RandomState::new, fixed_random_state)]
-#[kani::stub(request::Parser::parse, crate::parser::request::verif_kani::rparse_contract)]
-fn c08_glue_parse_request() {
-    use crate::parser::request::verif_kani as rv;
-    let cfg = sv::cfg1();
-    let buf: [u8; sv::B] = kani::any();
-    let handed: usize = kani::any();
-    kani::assume(handed <= sv::B);
-    let parser = rv::mk_header_parser(&cfg, buf, handed);
-    let mut r = CountR::new(1, 1);
-    r.fail = if kani::any() { 1 } else { 0 };
-    let mut w = CountW::new(1, 1);
-    let rp: *const CountR = &r;
-    let wp: *const CountW = &w;
-    let mut fut = std::mem::ManuallyDrop::new(Token::parse_request(parser, &mut r, &mut w));
-    let mut polls = 0;
-    loop {
-        polls += 1;
-        assert!(polls <= 3, "parse_request must make progress");
-        let pinned = unsafe { Pin::new_unchecked(&mut *fut) };
-        match poll_once(pinned) {
-            Poll::Ready(res) => {
-                match &res {
-                    Ok(_) => { let rr = unsafe { &*rp }; assert!(!rr.said_eof && !rr.said_err, "C12: a request was handed out although the transport ended / failed before the parser finished"); kani::cover!(true, "preamble complete"); }
-                    Err(e) => {
-                        let rr = unsafe { &*rp };
-                        if rr.said_eof { assert!(e.kind() == io::ErrorKind::ConnectionReset, "C12: EOF before a complete preamble must end the connection quietly (ConnectionReset)"); }
-                        if rr.said_err { assert!(e.kind() == io::ErrorKind::BrokenPipe, "C12: the transport's read error must be passed on"); }
-                        kani::cover!(e.kind() == io::ErrorKind::ConnectionReset, "EOF before a complete preamble: connection closed quietly");
-                    }
-                }
-                let (rr, ww) = unsafe { (&*rp, &*wp) };
-                if res.is_ok() || !ww.failed { assert!(ww.len <= unsafe { rv::GR_OUT_TOTAL }); }
-                let _ = rr;
-                std::mem::forget(res);
-                break;
-            }
-            Poll::Pending => {
-                let (rr, ww) = unsafe { (&*rp, &*wp) };
-                if rr.last_pending {
-                    // suspended waiting for the client
-                    assert!(unsafe { rv::GR_PARSE_CALLS } >= 1, "C08:buffered-record-unprocessed-at-read-pending: parse_request waits for client input before parsing the bytes handed over by the previous request");
-                    assert!(unsafe { rv::GR_FED } == rr.pos, "C08: bytes read from the transport were not handed to the parser before waiting again");
-                    assert!(ww.len == unsafe { rv::GR_OUT_TOTAL }, "C08:reply-not-on-transport-at-read-pending");
-                    kani::cover!(unsafe { rv::GR_OUT_TOTAL } >= 2, "waiting for input with a reply already written");
-                    kani::cover!(handed > 0 && rr.pos == 0, "first wait, handed-over bytes already parsed");
-                } else {
-                    kani::cover!(true, "suspended on the writer");
-                }
-            }
-        }
-    }
-}
-
+pub(crate) fn c09_glue_poll_read_buffered() { glue_poll_read_case(2, true, None, false, false, false); }
 
 // ------------------------------------------------------------------------------------------------ C07 / C11 / C12 / C08: close() with unread input (draining to a record boundary)
 
@@ -944,9 +853,9 @@ fn c08_glue_parse_request() {
 #[kani::stub(stream::Parser::parse, sv::parse_contract)]
 #[kani::stub(stream::Parser::compress, sv::compress_contract)]
 #[kani::stub(alloc::fmt::format, crate::verif_kani::fmt_format_stub)]
-fn c07_close_drain() { close_drain_case(); }
+pub(crate) fn c07_close_drain() { close_drain_case(); }
 
-fn close_drain_case() {
+pub(crate) fn close_drain_case() {
     let cfg = sv::cfg1();
     unsafe { sv::GS_ERR_BUDGET = 1; sv::GS_OUT_TOTAL = 0; }
     let raw = [0u8; sv::B];
@@ -1000,163 +909,6 @@ fn close_drain_case() {
     }
 }
 
-// ------------------------------------------------------------------------------------------------ C11 / C07: close() of a request that is not writeable yet, poll_input replaced by its contract
-// What poll_input really does is the subject of the c09_glue_* harnesses; here it is any of: Ok (final stream reached,
-// request now writeable), ConnectionAborted (the client aborted the request), another error, or Pending once.
-pub(crate) static mut GPI_CALLS: usize = 0;
-pub(crate) static mut GPI_PEND: usize = 0;
-pub(crate) static mut GPI_RESULT: u8 = 0;      // 1 = Ok, 2 = ConnectionAborted, 3 = other error
-pub(crate) fn poll_input_contract<'a, R: AsyncRead + Unpin, W: AsyncWrite + Unpin>(this: Pin<&mut Request<'a, R, W>>, _cx: &mut Context<'_>, dest: Option<&mut [u8]>) -> Poll<io::Result<usize>> where 'a: 'a {
-    assert!(dest.is_none(), "close() must not read stream data into a caller buffer");
-    let this = this.get_mut();
-    unsafe {
-        GPI_CALLS += 1;
-        assert!(GPI_RESULT == 0, "poll_input polled again after it completed");
-        if GPI_PEND > 0 && kani::any() { GPI_PEND -= 1; return Poll::Pending; }
-        let m: u8 = kani::any();
-        kani::assume(1 <= m && m <= 3);
-        GPI_RESULT = m;
-        match m {
-            1 => { this.writeable = true; Poll::Ready(Ok(0)) }
-            2 => Poll::Ready(Err(io::ErrorKind::ConnectionAborted.into())),
-            _ => Poll::Ready(Err(io::ErrorKind::InvalidData.into())),
-        }
-    }
-}
-
-// @harness name=c11_close_not_writeable props=C11,C07,C17 tier=quick timeout=2400 rmbody=ioerr,nogrow,nonv,nowaiters,nodropreq,noparse mem=30 dead=1 unwindset=WriteAll<.*>.as.futures_util::Future>::poll$:3;drop_glue::<.slab::Entry<.*>.>$:2
-// @bound Request::close(status) for a request that is NOT yet writeable (handler returned before its last input stream ended), at a record boundary, KeepConn set; poll_input replaced by its contract (Ok / ConnectionAborted / other error; no Pending: one poll); ExitStatus Overloaded or Complete(any code, incl. 'ABRT'); writer counting, accepts everything at once
-// @functions Request::close, Request::writeable, make_request_epilogue, stream::Parser::{set_stream,into_request_parser}
-#[kani::proof]
-#[kani::unwind(6)]
-#[kani::stub(std::hash::RandomState::new, fixed_random_state)]
-#[kani::stub(Request::poll_input, poll_input_contract)]
-#[kani::stub(alloc::fmt::format, crate::verif_kani::fmt_format_stub)]
-fn c11_close_not_writeable() {
-    let cfg = sv::cfg1();
-    unsafe { GPI_CALLS = 0; GPI_PEND = 0; GPI_RESULT = 0; }
-    let raw = [0u8; sv::B];
-    let mut parser = sv::mk_code(&cfg, raw, (0, 0, 0, 0), 1, fcgi::Role::Responder, 7, Some(fcgi::RecordType::Stdin), 0, 0, Vec::with_capacity(32), 0);
-    parser.request.flags = fcgi::RequestFlags::from(1);
-    let req = Request { parser, input: CountR::new(0, 0), output: Arc::new(Mutex::new(CountW::new(0, 0))), lock: None, writeable: false };
-    let status = if kani::any() { ExitStatus::Overloaded } else { ExitStatus::Complete(kani::any()) };
-    let mut fut = std::mem::ManuallyDrop::new(req.close(status));
-    let mut polls = 0;
-    let res = loop {
-        polls += 1;
-        assert!(polls <= 1, "close() must make progress");
-        let pinned = unsafe { Pin::new_unchecked(&mut *fut) };
-        match poll_once(pinned) { Poll::Ready(r) => break r, Poll::Pending => { kani::cover!(true, "close() suspended while waiting for the final stream"); } }
-    };
-    let m = unsafe { GPI_RESULT };
-    match res {
-        Ok((rp, _r, w)) => {
-            assert!(m != 3, "C12: close() succeeded although reading the input failed with a non-abort error");
-            // an aborted request gets its EndRequest (16 bytes) without stream ends; a writeable one also the two empty stream records
-            assert!(w.len == if m == 1 { 32 } else { 16 }, "C07/C11: wrong number of epilogue bytes for the request");
-            kani::cover!(m == 2, "C11: client abort seen by close() is tolerated, EndRequest still sent, connection reusable");
-            kani::cover!(m == 1, "final stream reached inside close()");
-            std::mem::forget(rp); std::mem::forget(w);
-        }
-        Err(e) => {
-            assert!(m == 3, "C11: close() failed (no EndRequest, connection dropped) although the only irregularity was a client abort - or none");
-            assert!(e.kind() == io::ErrorKind::InvalidData, "the input error must be passed on");
-            std::mem::forget(e);
-            kani::cover!(true, "other input errors end the connection");
-        }
-    }
-}
-
-// ------------------------------------------------------------------------------------------------ C08 / C11 / C12: record_boundary (draining unread input) on its own
-
-// @harness name=c08_glue_record_boundary props=C08,C11,C12 tier=manual timeout=1800 rmbody=ioerr,nogrow,nowaiters,nodropreq mem=30 unwindset=Request::<'_,.*>::record_boundary::.closure.0.$:3;Request::<'_,.*>::poll_output$:3;drop_glue::<.slab::Entry<.*>.>$:2
-// @bound Request::record_boundary in the middle of an unread record (payload_rem = 1, active stream None) against the parser contract (any consumption, replies, boundary reached or not, <= 1 error: AbortRequest or a fatal one); reader: no more bytes (EOF) after <= 1 Pending; writer counting, whole writes, <= 1 Pending; polled up to 3 times
-// @functions Request::record_boundary, Request::poll_output
-#[kani::proof]
-#[kani::unwind(6)]
-#[kani::stub(std::hash::RandomState::new, fixed_random_state)]
-#[kani::stub(stream::Parser::parse, sv::parse_contract)]
-#[kani::stub(stream::Parser::compress, sv::compress_contract)]
-fn c08_glue_record_boundary() { rb_case(0, 0, 1, 1, 3); }
-
-// @harness name=c08_rb_pending props=C08,C11,C12,C07 tier=quick timeout=2400 rmbody=ioerr,nogrow,nowaiters,nodropreq mem=30 unwindset=Request::<'_,.*>::record_boundary::.closure.0.$:3;Request::<'_,.*>::poll_output$:3;drop_glue::<.slab::Entry<.*>.>$:2 dead=1
-// @bound ONE poll of Request::record_boundary (the draining step of close()) in the middle of an unread record (payload_rem = 1, active stream None) against the parser contract (any consumption, 0|2 reply bytes per call, boundary reached or not, <= 1 error: AbortRequest or a fatal one); reader: <= 1 Pending, one byte, then EOF; writer: <= 1 Pending, whole writes. Checked at the first suspension and at completion; the resumption after a Pending is not polled
-// @functions Request::record_boundary, Request::poll_output
-#[kani::proof]
-#[kani::unwind(6)]
-#[kani::stub(std::hash::RandomState::new, fixed_random_state)]
-#[kani::stub(stream::Parser::parse, sv::parse_contract)]
-#[kani::stub(stream::Parser::compress, sv::compress_contract)]
-fn c08_rb_pending() { rb_case(1, 0, 1, 1, 1); }
-
-// @harness name=c07_rb_two_reads props=C07 tier=quick timeout=2400 rmbody=ioerr,nogrow,nowaiters,nodropreq mem=30 unwindset=Request::<'_,.*>::record_boundary::.closure.0.$:4;Request::<'_,.*>::poll_output$:3;drop_glue::<.slab::Entry<.*>.>$:2 dead=2
-// @bound Request::record_boundary draining a long unread body: the transport delivers two reads of any size 1..24 (the first may fill the whole 24-byte buffer), EOF at the third call; no Pending on either side (one poll); parser contract as above. The transport must never be offered an empty buffer while the parser has reclaimable space (a 0-byte answer would be taken for end of file)
-// @functions Request::record_boundary, stream::Parser::{compress,input_buffer} (geometry), Request::poll_output
-#[kani::proof]
-#[kani::unwind(6)]
-#[kani::stub(std::hash::RandomState::new, fixed_random_state)]
-#[kani::stub(stream::Parser::parse, sv::parse_contract)]
-#[kani::stub(stream::Parser::compress, sv::compress_contract)]
-fn c07_rb_two_reads() { rb_case(48, 3, 0, 0, 1); }
-
-fn rb_case(avail: usize, max_calls: usize, r_pend: usize, w_pend: usize, max_polls: usize) {
-    let cfg = sv::cfg1();
-    unsafe { sv::GS_ERR_BUDGET = 1; sv::GS_OUT_TOTAL = 0; }
-    let raw = [0u8; sv::B];
-    let parser = sv::mk_code(&cfg, raw, (0, 0, 0, 0), 1, fcgi::Role::Responder, 7, None, 1, 0, Vec::with_capacity(32), 0);
-    let mut r = CountR::new(avail, r_pend);
-    r.max_calls = max_calls;
-    let mut req = Request { parser, input: r, output: Arc::new(Mutex::new(CountW::new(w_pend, 0))), lock: None, writeable: true };
-    let rp: *const CountR = &req.input;
-    let wp: *const Mutex<CountW> = Arc::as_ptr(&req.output);
-    let pp: *const stream::Parser<'_> = &req.parser;
-    let mut polls = 0;
-    {
-        let mut fut = std::mem::ManuallyDrop::new(req.record_boundary());
-        loop {
-            polls += 1;
-            assert!(polls <= max_polls, "record_boundary must make progress");
-            let pinned = unsafe { Pin::new_unchecked(&mut *fut) };
-            match poll_once(pinned) {
-                Poll::Pending => {
-                    let rr = unsafe { &*rp };
-                    if rr.last_pending {
-                        let g = unsafe { (*wp).try_lock() }.expect("output lock must be free while waiting for input");
-                        assert!(g.len == unsafe { sv::GS_OUT_TOTAL }, "C08:reply-owed-at-read-pending: record_boundary waits for the rest of a record while replies are unsent");
-                        assert!(unsafe { sv::GS_FED } == rr.pos, "C08: bytes read from the transport were not handed to the parser before waiting again");
-                        kani::cover!(unsafe { sv::GS_OUT_TOTAL } > 0, "draining: reply flushed before waiting");
-                        std::mem::forget(g);
-                    } else { kani::cover!(true, "suspended on the writer"); }
-                    if polls == max_polls { break; }      // single-poll instances stop at the first suspension
-                }
-                Poll::Ready(res) => {
-                    let (aborts, fatals) = unsafe { sv::GS_ERRS };
-                    let rr = unsafe { &*rp };
-                    assert!(rr.empty_reads == 0 || unsafe { sv::GS_UNCONSUMED } == sv::B, "C07/C12: while draining, the transport was offered an empty buffer (its 0-byte answer is taken for end of file) although the parser's buffer has reclaimable space");
-                    match &res {
-                        Ok(()) => {
-                            assert!(unsafe { (*pp).is_record_boundary() }, "record_boundary returned Ok off a record boundary");
-                            assert!(fatals == 0, "C12: record_boundary succeeded although the parser reported a fatal error");
-                            kani::cover!(aborts == 1, "C11: an abort seen while draining is tolerated");
-                            kani::cover!(rr.calls == 2, "boundary reached after two reads");
-                        }
-                        Err(e) => {
-                            assert!(fatals == 1 || rr.said_eof || rr.said_err || rr.empty_reads > 0, "C11: draining failed although the only irregularity was a client abort (or none)");
-                            if rr.said_eof && fatals == 0 { assert!(e.kind() == io::ErrorKind::UnexpectedEof, "C12: EOF while draining must surface as UnexpectedEof"); }
-                            if fatals == 1 && !rr.said_eof && !rr.said_err && rr.empty_reads == 0 { assert!(e.kind() == io::ErrorKind::InvalidData, "C12: a fatal protocol error must surface as InvalidData"); }
-                            kani::cover!(rr.said_eof, "EOF while draining");
-                        }
-                    }
-                    std::mem::forget(res);
-                    break;
-                }
-            }
-        }
-    }
-    std::mem::forget(req);
-}
-
-
 // @harness name=c10_glue_reply_lock props=C10 tier=quick timeout=2400 rmbody=ioerr,nogrow,nowaiters mem=20 unwindset=Request::<'_,.*>::poll_input$:5;Request::<'_,.*>::poll_output$:4;drop_glue::<.slab::Entry<.*>.>$:2 dead=4
 // @bound ONE poll of Request::poll_read from the state "first byte of a 2-byte management reply already written, output lock held by the request": writer <= 1 Pending / <= 1 short write, reader <= 2 reads / <= 1 Pending, parser contract as in c09_glue_poll_read_*: the lock stays with the request until the reply is complete
 // @functions Request::poll_output, RepeatableLockFuture::poll, Request::poll_input
@@ -1165,7 +917,7 @@ fn rb_case(avail: usize, max_calls: usize, r_pend: usize, w_pend: usize, max_pol
 #[kani::stub(std::hash::RandomState::new, fixed_random_state)]
 #[kani::stub(stream::Parser::parse, sv::parse_contract)]
 #[kani::stub(stream::Parser::compress, sv::compress_contract)]
-fn c10_glue_reply_lock() { glue_poll_read_case(0, true, None, true, false, false); }
+pub(crate) fn c10_glue_reply_lock() { glue_poll_read_case(0, true, None, true, false, false); }
 
 // @harness name=c12_glue_write_fault props=C12 tier=quick timeout=2400 rmbody=ioerr,nogrow,nowaiters mem=20 unwindset=Request::<'_,.*>::poll_input$:5;Request::<'_,.*>::poll_output$:4;drop_glue::<.slab::Entry<.*>.>$:2 dead=4
 // @bound ONE poll of Request::poll_read as in c09_glue_poll_read_pending, with a write-side fault: the 1st or 2nd write call on the transport returns an error (BrokenPipe) or a zero-length write; the poll must then end with that error resp. WriteZero, never Pending or success, and nothing is written afterwards
@@ -1175,7 +927,7 @@ fn c10_glue_reply_lock() { glue_poll_read_case(0, true, None, true, false, false
 #[kani::stub(std::hash::RandomState::new, fixed_random_state)]
 #[kani::stub(stream::Parser::parse, sv::parse_contract)]
 #[kani::stub(stream::Parser::compress, sv::compress_contract)]
-fn c12_glue_write_fault() { glue_poll_read_case(0, true, Some(4), false, true, false); }
+pub(crate) fn c12_glue_write_fault() { glue_poll_read_case(0, true, Some(4), false, true, false); }
 
 // @harness name=c09_glue_writeable_gate props=C09 tier=quick timeout=2400 rmbody=ioerr,nogrow,nowaiters mem=20 unwindset=Request::<'_,.*>::poll_input$:5;Request::<'_,.*>::poll_output$:4;drop_glue::<.slab::Entry<.*>.>$:2 dead=5
 // @bound ONE poll of Request::poll_read as in c09_glue_poll_read_min for a Filter request that is not writeable yet, with Stdin (not final) or Data (final) as the active stream: the request becomes writeable only on its final stream, and does become writeable when data or the end of that stream arrives
@@ -1185,7 +937,7 @@ fn c12_glue_write_fault() { glue_poll_read_case(0, true, Some(4), false, true, f
 #[kani::stub(std::hash::RandomState::new, fixed_random_state)]
 #[kani::stub(stream::Parser::parse, sv::parse_contract)]
 #[kani::stub(stream::Parser::compress, sv::compress_contract)]
-fn c09_glue_writeable_gate() { glue_poll_read_case(0, false, Some(4), false, false, true); }
+pub(crate) fn c09_glue_writeable_gate() { glue_poll_read_case(0, false, Some(4), false, false, true); }
 
 // @harness name=c09_new_writeable props=C09 tier=quick timeout=600 rmbody=ioerr,nogrow,nowaiters,nodropreq mem=12
 // @bound Request::new for every role: writeable from the start iff the role has at most one input stream (Responder, Authorizer), not for Filter; output_stream() of a writeable request carries the request's id and the stream type
@@ -1193,7 +945,7 @@ fn c09_glue_writeable_gate() { glue_poll_read_case(0, false, Some(4), false, fal
 #[kani::proof]
 #[kani::unwind(4)]
 #[kani::stub(std::hash::RandomState::new, fixed_random_state)]
-fn c09_new_writeable() {
+pub(crate) fn c09_new_writeable() {
     let cfg = sv::cfg1();
     let role = sv::any_role();
     let id: u16 = kani::any();
@@ -1217,7 +969,7 @@ fn c09_new_writeable() {
 #[kani::unwind(4)]
 #[kani::should_panic]
 #[kani::stub(std::hash::RandomState::new, fixed_random_state)]
-fn c09_output_stream_gate() {
+pub(crate) fn c09_output_stream_gate() {
     let cfg = sv::cfg1();
     let parser = sv::mk_code(&cfg, [0u8; sv::B], (0, 0, 0, 0), 1, fcgi::Role::Filter, 7, Some(fcgi::RecordType::Stdin), 0, 0, Vec::with_capacity(32), 0);
     let req = Request::new(parser, CountR::new(0, 0), CountW::new(0, 0));
@@ -1237,7 +989,7 @@ fn c09_output_stream_gate() {
 #[kani::stub(std::hash::RandomState::new, fixed_random_state)]
 #[kani::stub(stream::Parser::parse, sv::parse_contract)]
 #[kani::stub(stream::Parser::compress, sv::compress_contract)]
-fn c09_glue_fill_buf() {
+pub(crate) fn c09_glue_fill_buf() {
     let cfg = sv::cfg1();
     let gs: [u8; 8] = kani::any();
     unsafe { sv::GS_STREAM = gs; sv::GS_ERR_BUDGET = 1; }
